@@ -148,9 +148,20 @@ def gen_plan(prop, seed, tier):
     if rng.random() < 0.5:
         # an asynchronous failure of one request, biased towards requests that have to fill a table
         cand = [i for i, o in enumerate(ops) if o["op"] in ("rule", "weights", "nodes", "consume") and "badn" not in o]
+        # prefer requests that are the first of their (family, size) in the plan: those have to fill a table
+        seen, first = set(), []
+        for i in cand:
+            key = (ops[i].get("fam"), ops[i].get("n"))
+            if ops[i]["op"] != "consume" and key not in seen and ops[i].get("n", 0) >= 4:
+                first.append(i)
+            seen.add(key)
         if cand:
-            k = int(math.exp(rng.uniform(0, math.log(4000))))
-            ops[rng.choice(cand)]["async_k"] = k   # stored on the request itself so that shrinking keeps it attached
+            i = rng.choice(first) if (first and rng.random() < 0.7) else rng.choice(cand)
+            if ops[i].get("fam") == "gauss_legendre" or (ops[i]["op"] == "nodes" and ops[i].get("fam") == "chebyshev"):
+                k = rng.randint(1, 12)          # these fills are a handful of lines long
+            else:
+                k = int(math.exp(rng.uniform(0, math.log(4000))))
+            ops[i]["async_k"] = k   # stored on the request itself so that shrinking keeps it attached
     return {"property": prop, "engine": "memo", "seed": seed, "tier": tier, "config": cfg, "ops": ops}
 
 
